@@ -872,6 +872,15 @@ def bi_str(fv, node, st, spec):
     return SV(P.str_of(box(v)), STR)
 
 
+HASHFN = z3.Function('py_hash', P.V, z3.IntSort())
+
+
+def bi_hash(fv, node, st, spec):
+    """hash(x): an uninterpreted function of the value (the same value hashes alike; nothing else is known)"""
+    v = fv.ev(node.args[0], st, spec)
+    return SV(HASHFN(box(v)), INT)
+
+
 def bi_print(fv, node, st, spec):
     for a in node.args:
         fv.ev(a, st, spec)
@@ -939,7 +948,7 @@ BUILTINS = {
     'defaultdict': bi_defaultdict,
     'len': bi_len, 'any': bi_any, 'all': bi_all, 'set': bi_set, 'list': bi_list, 'tuple': bi_tuple,
     'dict': bi_dict, 'OrderedDict': bi_dict, 'isinstance': bi_isinstance, 'min': bi_min, 'max': bi_max,
-    'str': bi_str, 'print': bi_print, 'bool': bi_bool, 'copy': bi_copy, 'deepcopy': bi_deepcopy,
+    'str': bi_str, 'hash': bi_hash, 'print': bi_print, 'bool': bi_bool, 'copy': bi_copy, 'deepcopy': bi_deepcopy,
     'hasattr': bi_hasattr, 'getattr': bi_getattr, 'type': bi_type,
 }
 
